@@ -75,4 +75,45 @@ theorem C07_sep_copy_no_false_reject (sep : Bytes) (limit : Nat) (ke : Bool) (hs
 
 example : firstOcc [13, 10] (([97, 98, 99] : Bytes) ++ [13, 10]) = some 3 := by decide +kernel
 
+/-- **C07, buffered path: bound.**  After any history of fitting fills the buffer-filling consumer owns a buffer of
+    exactly `cap` bytes (or none yet) and retains at most `cap` bytes — whatever the peer sends. -/
+theorem C07_sep_buffered_bound (sep : Bytes) (cap : Nat) (ke : Bool) (hsep : sep ≠ []) (hcap : 0 < cap)
+    (fills : List Bytes) (r : BufConsumer BRUState × List Item)
+    (hrun : BufConsumer.runFills BRU.init 0 cap (BRU.feed true sep ke) BufConsumer.new fills = some r) :
+    (r.1.buffer.length = 0 ∨ r.1.buffer.length = cap) ∧
+    ∃ h : Bytes, BufConsumer.Rel (·.buflen) (BRU.spec sep cap ke) (BRU.Inv sep cap) cap r.1 h ∧ h.length ≤ cap := by
+  have R := BRU.refines sep cap ke hsep
+  have hnew : BufConsumer.Rel (·.buflen) (BRU.spec sep cap ke) (BRU.Inv sep cap) cap
+      (BufConsumer.new : BufConsumer BRUState) [] :=
+    ⟨rfl, Or.inl ⟨rfl, rfl, rfl, Or.inl rfl⟩⟩
+  have hsim := BufConsumer.runFills_ref cap R hcap fills BufConsumer.new [] hnew r hrun
+  have hrel := hsim.2
+  refine ⟨?_, _, hrel, ?_⟩
+  · rcases hrel with ⟨_, ⟨_, _, _, hb⟩ | ⟨s, _, hlen, _⟩⟩
+    · rcases hb with hb | hb
+      · left; simp [hb]
+      · right; exact hb
+    · right; exact hlen
+  · rcases hrel with ⟨_, ⟨_, _, hh, _⟩ | ⟨s, _, hlen, _, hfit, htake, _⟩⟩
+    · rw [hh]; simp
+    · rw [← htake]; simp only [List.length_take]; omega
+
+/-- **C07, buffered path: the error is raised** no later than when unterminated data fills the buffer up to its
+    last byte but one. -/
+theorem C07_sep_buffered_overrun_raises (sep : Bytes) (cap : Nat) (ke : Bool) (b : Bytes)
+    (hnone : firstOcc sep b = none) (hsl : sep.length ≤ b.length) (hlen : cap ≤ b.length + 1) :
+    ∃ r, BRU.spec sep cap ke b = .fail r := by
+  unfold BRU.spec
+  rw [hnone]
+  have : b.length + 2 > cap ∧ sep.length ≤ b.length := ⟨by omega, hsl⟩
+  simp only [this, and_self, if_true]
+  exact ⟨_, rfl⟩
+
+/-- **C07, buffered path: no false rejection** — frames with `|payload| + |sep| < cap` are delivered under every
+    fill history (this is `C01_sep_buffered_roundtrip`; restated here for one frame followed by anything). -/
+theorem C07_sep_buffered_no_false_reject (sep : Bytes) (cap : Nat) (ke : Bool) (hsep : sep ≠ []) (p rest : Bytes)
+    (hfirst : firstOcc sep (p ++ sep) = some p.length) :
+    BRU.spec sep cap ke (p ++ sep ++ rest) = .done (if ke then p ++ sep else p) rest :=
+  BRU.spec_frame sep cap ke hsep p rest hfirst
+
 end EasyNet
